@@ -3,6 +3,7 @@
 package app
 
 import (
+	"bytes"
 	"crypto/sha256"
 	"encoding/hex"
 	"encoding/json"
@@ -176,7 +177,16 @@ func verifClientView(res *zzverif.Resp) []any {
 			hmOwn++
 		}
 	}
-	return []any{"hmAll", hmAll, "hmOwn", hmOwn, "st", st, "from", from, "e", e, "a", a, "n", n, "complete", res.Complete, "junk", junk,
+	// does the body claim to be a finished Anthropic message (streamed: message_stop; buffered: a stop_reason)?
+	fin := bytes.Contains(res.Body, []byte("message_stop"))
+	var msg struct {
+		Type       string  `json:"type"`
+		StopReason *string `json:"stop_reason"`
+	}
+	if json.Unmarshal(res.Body, &msg) == nil && msg.Type == "message" && msg.StopReason != nil {
+		fin = true
+	}
+	return []any{"fin", fin, "hmAll", hmAll, "hmOwn", hmOwn, "st", st, "from", from, "e", e, "a", a, "n", n, "complete", res.Complete, "junk", junk,
 		"mixed", mixed, "bodyClass", verifBodyClass(res.Body, runs, junk), "ms", res.Elapsed.Milliseconds(),
 		"ct", res.Header.Get("Content-Type")}
 }
